@@ -357,9 +357,10 @@ func (p *pool) scenario(r *hx.Rng, packer, kt, enc, style, via, pay string, n in
 	// party 0 sends; parties 1..4 receive; party 5 is the outsider; with some probability one party owns two
 	// recipient keys, the sender is a recipient too, or a recipient key is listed twice
 	sc.Sender = [2]int{0, r.Intn(nSlots)}
+	off := r.Intn(4)
 
 	for i := 0; i < n; i++ {
-		pa := 1 + (i % 4)
+		pa := 1 + ((i + off) % 4)
 		sc.Rcpts = append(sc.Rcpts, [2]int{pa, (i / 4) % nSlots})
 	}
 
@@ -507,9 +508,9 @@ func main() {
 	}
 
 	// random
-	nRandom := 250
+	nRandom := 5200
 	if thorough {
-		nRandom = 6000
+		nRandom = 24000
 	}
 
 	packers := []string{"jwe-auth", "jwe-anon", "jwe-auth", "jwe-anon", "leg-auth", "leg-anon"}
@@ -518,6 +519,10 @@ func main() {
 		r := next()
 		packer := packers[r.Intn(len(packers))]
 		kt := kts[r.Intn(len(kts))]
+		if r.Intn(12) == 0 {
+			kt = env.P521
+		}
+
 		enc := env.Encs[r.Intn(len(env.Encs))]
 		style := []string{"didkey", "diddoc", "pdoc"}[r.Intn(3)]
 		via := []string{"packager", "packer"}[r.Intn(2)]
